@@ -20,6 +20,7 @@ import numpy as np
 from vt import alg, extract, sx, symrun, npshim
 from vt.alg import Ctx, X
 from vt.core import Ob, Verdict, Refuted, Unsupported, DISCHARGED, REFUTED
+from . import ops
 from . import common, patches, fem
 
 PROP = "C16"
@@ -607,12 +608,14 @@ def build(tier, seed):
     obs.append(Ob("canary.indices", ob_indices, (2, True), "P", expect=REFUTED, timeout=300))
     functions = {"__Result_in_Strain_or_Stress_field": extract.get(MU, "__Result_in_Strain_or_Stress_field").describe(), "Elastic.Result": extract.get(SE, "Elastic.Result").describe(),
                  "Elastic._Calc_Psi_Elas": extract.get(SE, "Elastic._Calc_Psi_Elas").describe()}
+    obs += ops.pointwise_obligations('C16', tier)
+    obs.append(ops.selfcheck_ob('C16'))
     return dict(
         obs=obs, level="other", min_obligations=12,
         explanation=("Component extraction and the von Mises formula are decided symbolically from the extracted source. The energy identity is a polynomial identity in a symbolic "
                      "state on exact patches (real B, wJ, element operator). All advertised result names of seven simulation types are exercised on arbitrary states with run-time "
                      "contracts tying each named result to the vector/tensor result, the matrices and the loads."),
-        trusted_base=["vt/npshim.py + vt/symrun.py", "C03 scatter-add contract"],
+        trusted_base=ops.GP_TRUST + ["vt/npshim.py + vt/symrun.py", "C03 scatter-add contract"],
         assumptions=["one mesh / one random state per simulation type (seeded)", "beam internal-force results and phase-field energies: only availability is checked"],
         functions=functions,
         dropped=["P: D1-D5; B/X: imported code unmodified"],
